@@ -84,14 +84,15 @@ type PodRec struct {
 	Offered   []string
 	FilterOK  bool
 	// snapshot taken at the last Filter (for M-sticky / M-multi)
-	heldAtFilter     []string
-	heldAfterFilter  []string // what the pod's key held right after its last filter
-	reservedAtFilter []string
-	FilterConfGen    int  // configuration generation at the last filter
-	PoolSizeAtFilter int  // size of the pod's pool visible at the last filter (-1 = no Pool object)
-	UsedAtFilter     int  // IPs keyed to pods of the pod's deployment right before the last filter
-	Exempt           bool // its IP was legitimately de-configured by a reload
-	ProvAtBind       bool
+	heldAtFilter         []string
+	heldAfterFilter      []string // what the pod's key held right after its last filter
+	reserveNotHandedOver []string // reserve of the app at the last filter, if that filter offered nodes without handing it over
+	reservedAtFilter     []string
+	FilterConfGen        int  // configuration generation at the last filter
+	PoolSizeAtFilter     int  // size of the pod's pool visible at the last filter (-1 = no Pool object)
+	UsedAtFilter         int  // IPs keyed to pods of the pod's deployment right before the last filter
+	Exempt               bool // its IP was legitimately de-configured by a reload
+	ProvAtBind           bool
 }
 
 // Step is one recorded step of a history.
